@@ -5,7 +5,7 @@
 From Coq Require Import ZArith NArith List String.
 Require Import AperCommon.
 Import ListNotations.
-Open Scope string_scope.
+Local Open Scope string_scope.
 
 Definition gp0 : params := mkp false false false false None None (Some 0%Z) (Some 255%Z) None "".
 Definition gp1 : params := mkp false false false false None None (Some 0%Z) (Some 2%Z) None "".
@@ -3828,9 +3828,10 @@ Definition G_AssociatedQosFlowItemExtIEs : ty := TStruct [
   ("ExtensionValue", gp9, G_AssociatedQosFlowItemExtIEsExtensionValue)].
 Definition G_ProtocolExtensionContainerAssociatedQosFlowItemExtIEs : ty := TStruct [
   ("List", gp10, (TSlice G_AssociatedQosFlowItemExtIEs))].
+Definition gp_qfmi : params := mkp true false true false None None (Some 0%Z) (Some 1%Z) None "".
 Definition G_AssociatedQosFlowItem : ty := TStruct [
   ("QosFlowIdentifier", gp8, G_QosFlowIdentifier);
-  ("QosFlowMappingIndication", gp11, (TPtr TEnum));
+  ("QosFlowMappingIndication", gp_qfmi, (TPtr TEnum));   (* TS 38.413: ENUMERATED {ul, dl, ...} OPTIONAL (the Go tag had no bounds before fix a2bb2cf) *)
   ("IEExtensions", gp11, (TPtr G_ProtocolExtensionContainerAssociatedQosFlowItemExtIEs))].
 Definition G_AssociatedQosFlowList : ty := TStruct [
   ("List", gp69, (TSlice G_AssociatedQosFlowItem))].
